@@ -42,7 +42,8 @@ CONSTANTS
   MutNilRelease,      \* mutant (pre-fix code): retiring a stream consumer whose reader never opened panics
   MutLenientCount,    \* mutant: the "fewer records than payloads" check only fires when nothing was decoded
   MutSkipUnknown,     \* mutant: RelatedDataFrom skips records of a type it does not know
-  MutOpenOnCreate     \* mutant: the IPC reader is opened only when the stream consumer is created (a failed open is never retried)
+  MutOpenOnCreate,    \* mutant: the IPC reader is opened only when the stream consumer is created (a failed open is never retried)
+  MutNoRetainMain     \* mutant (the code before fix 8e767b7c): the main record lives only as long as its reader does not advance
 
 VARIABLES
   pstreams,   \* producer: set of [key, id, pt, n, sig]   (streamProducers; n = payloads written)
@@ -117,8 +118,10 @@ ProduceBatch(s, recs) ==
 ---------------------------------------------------------------------------
 \* payload-level faults (the alphabet of C07)
 CanFault == phase = "flight" /\ nfaults < MaxFaults /\ Len(wire) > 0
+\* C07 quantifies over a valid prefix followed by ONE altered batch: a batch altered after an earlier altered batch is not judged
 Faulted(w) == /\ wire' = w /\ nfaults' = nfaults + 1 /\ altered' = TRUE
-              /\ UNCHANGED <<pstreams, nextId, batchId, orig, bsig, phase, cstreams, pos, got, res, gapped, judged, ann, retiredIds>>
+              /\ judged' = (judged /\ ~(altered /\ wire = orig))
+              /\ UNCHANGED <<pstreams, nextId, batchId, orig, bsig, phase, cstreams, pos, got, res, gapped, ann, retiredIds>>
 RemoveAt(w, i) == [k \in 1..(Len(w) - 1) |-> IF k < i THEN w[k] ELSE w[k + 1]]
 
 FaultRelabel == CanFault /\ \E i \in 1..Len(wire), l \in Labels : l # wire[i].pt /\ Faulted([wire EXCEPT ![i].pt = l])
@@ -193,12 +196,15 @@ Finish ==
          mains == {i \in 1..Len(got) : got[i].pt = Main(bsig)}
          mislabelled == {i \in 1..Len(got) : got[i].pt # got[i].tpt /\ got[i].pt \in Known(bsig)}
          refused == {i \in mislabelled : Family[got[i].pt] # Family[got[i].tpt]}
-         \* a main record handed to another decoder, or another record handed to the main decoder, is refused as soon as it has rows
-         sure == {i \in refused : got[i].rows /\ (got[i].pt \in Mains \/ got[i].tpt \in Mains)}
+         \* a main record handed to another decoder is refused as soon as it has rows
+         \* (the other direction - another record handed to the main decoder - is not always refused by the real decoders:
+         \* absent columns are optional; observed as drift in the thorough tier, so it is left open here)
+         sure == {i \in refused : got[i].rows /\ got[i].tpt \in Mains}
          twice == \E i, j \in 1..Len(got) : i < j /\ got[i].pt = got[j].pt /\ got[i].pt \in Singletons /\ got[i].pt \in Known(bsig)
          bad == {i \in 1..Len(got) : ~got[i].good}
-         \* Reader.Next releases the record it handed out before; RelatedDataFrom drops Consume's own
-         \* reference, so a record whose reader was advanced again is gone when the main decoder runs
+         \* Reader.Next releases the record it handed out before and RelatedDataFrom drops Consume's own reference: a
+         \* record whose reader was advanced again would be gone when the main decoder runs, had {Traces,Logs,Metrics}From
+         \* not taken a reference of their own on the main records (fix 8e767b7c; before it: MutNoRetainMain)
          stale == {i \in 1..Len(got) : \E k \in (got[i].wp + 1)..Len(wire) : wire[k].id = got[i].rd}
      IN IF countErr THEN Return("error")
         ELSE IF unknown # {} /\ ~MutSkipUnknown THEN Return("error")
@@ -206,7 +212,7 @@ Finish ==
         ELSE IF sure # {} THEN Return("error")
         ELSE \/ (bad \cup refused) # {} /\ Return("error")     \* out of sequence, or an empty record of another family: may be refused
              \/ IF mains = {} THEN Return("empty")
-                ELSE IF \E i \in mains \cap stale : got[i].rows THEN Return("panic")
+                ELSE IF MutNoRetainMain /\ \E i \in mains \cap stale : got[i].rows THEN Return("panic")
                 ELSE Return("ok")
   /\ UNCHANGED <<pstreams, nextId, batchId, wire, orig, bsig, cstreams, pos, got, nfaults, altered, judged, ann, retiredIds>>
 
